@@ -20,6 +20,7 @@ func init() {
 			"P2 lexer progress: nextToken returns a token other than INVALID only with a non-empty match, and every iteration of the Lex loop advances the cursor by the match length, " +
 			"P3 include recursion is bounded: a file is parsed recursively only when it is not yet in the processed set, and it is inserted before the recursive call; the includer graph stays acyclic: an edge is added to an already known file only where the cycle check (a recursive walker over SourceFile.IncludedFrom) returned nil, or every such walker carries a visited set, " +
 			"P5 the nil *Pipeline with which the top-level call is compiled (followed from the literal nil through direct argument passing) is never dereferenced without a dominating nil test. " +
+			"P7 attachComments allocates nothing sized by the remaining comments; P8 ErrorList.If never returns a slice of its receiver as the list. " +
 			"NOT decided: other panics in the compile phase (enumerated as information), index panics in error rendering, time/memory proportionality, errors without a position.",
 		Assumptions: append([]string{"Go's regexp is linear-time (RE2); the goyacc skeleton is trusted"}, commonAssumptions...),
 	}
@@ -174,6 +175,8 @@ func runC08(c *an.Ctx) {
 	c08IncludeGraph(c)
 	ruleP5(c)
 	ruleP6(c)
+	ruleP7(c)
+	ruleP8(c)
 	// information: explicit panics in package syntax outside the parse stage
 	nPanic := 0
 	for _, fn := range p.FuncsOf(pkgSyntax) {
